@@ -621,8 +621,18 @@ def gen_export_case(rng):
          'block_order': rng.choice([None, 'layer_column', 'dmplex']), 'nrocks': rng.randint(1, 4)}
     ncells = nx * ny * nz
     c['rock_of'] = [rng.randrange(c['nrocks']) for _ in range(ncells)]
-    c['boundary'] = dict((str(rng.randrange(ncells)), rng.choice([0.0, 1e25, 1e30, 2e25])) for _ in range(rng.choice([0, 0, 1, 2])))
-    c['atmos_volume'] = rng.choice([1e25, 1e25, 1e20])
+    # the threshold is an argument of json(): the geometry's own atmosphere volume is something else and may differ from it;
+    # block volumes on both sides of the threshold, also between the two
+    # (atmosphere blocks themselves must stay boundary blocks: with atmosphere blocks present their volume is kept at or
+    # above the threshold)
+    if c['atmos_type'] == 2:
+        c['atmos_volume'] = rng.choice([1e25, 1e25, 1e20, 1e30])
+        c['geo_atmosphere_volume'] = rng.choice([None, None, 1e22, 1e27])
+    else:
+        c['atmos_volume'] = rng.choice([1e25, 1e25, 1e20])
+        c['geo_atmosphere_volume'] = rng.choice([None, None, 1e27])
+    c['boundary'] = dict((str(rng.randrange(ncells)), rng.choice([0.0, 1e25, 1e30, 2e25, 1e22, 1e27, c['atmos_volume']]))
+                         for _ in range(rng.choice([0, 0, 1, 2, 3])))
     route = rng.choice(['explicit', 'index', 'multi', 'simulator', 'simulator+multi-without-eos'])
     eos = rng.choice(sorted(EOS_NAMES))
     if route == 'index':
@@ -666,6 +676,8 @@ def build_export(c):
     if c['block_order']:
         kw['block_order'] = c['block_order']
     geo = mg.mulgrid().rectangular(c['dx'], c['dy'], c['dz'], atmos_type=c['atmos_type'], convention=c['convention'], **kw)
+    if c.get('geo_atmosphere_volume') is not None:
+        geo.atmosphere_volume = c['geo_atmosphere_volume']
     dat = t2d.t2data()
     dat.title = 'export case'
     dat.grid = t2g.t2grid().fromgeo(geo)
